@@ -189,6 +189,11 @@ mod ops;
 
 fn main() {
     // panics are caught and reported on stdout; keep stderr quiet
+    let args: Vec<String> = std::env::args().collect();
+    if args.len() == 3 && args[1] == "--nested-child" {
+        ops::nested_child(args[2].parse().unwrap());
+        return;
+    }
     std::panic::set_hook(Box::new(|_| {}));
     let stdin = std::io::stdin();
     let stdout = std::io::stdout();
